@@ -182,13 +182,24 @@ fn parse_i(s: &str) -> Option<i64> {
     s.parse().ok()
 }
 
-fn drain<I: Iterator>(it: I) -> (Vec<I::Item>, bool) {
+thread_local! {
+    /// set when an iterator yielded an item after it had returned `None`
+    static UNFUSED: std::cell::Cell<bool> = const { std::cell::Cell::new(false) };
+}
+
+fn drain<I: Iterator>(mut it: I) -> (Vec<I::Item>, bool) {
     let mut v = Vec::new();
-    for x in it {
+    while let Some(x) = it.next() {
         if v.len() >= DRAIN_LIMIT {
             return (v, true);
         }
         v.push(x);
+    }
+    // an exhausted iterator stays exhausted: finitely many items however often it is polled
+    for _ in 0..2 {
+        if it.next().is_some() {
+            UNFUSED.with(|c| c.set(true));
+        }
     }
     (v, false)
 }
@@ -1444,6 +1455,52 @@ fn step<P: HP>(st: &mut St<P>, line: &str) -> String {
                 _ => "bad-op".into(),
             }
         }
+        // both sides of a split mutable view search for the same prefix while both are alive: the results must
+        // never lend the same entry twice
+        ["split_probe", r, kind, q, rest @ ..] => {
+            let Some(steps) = parse_steps::<P>(rest) else { return "bad-op".into() };
+            let Some(q) = parse_p::<P>(q) else { return "bad-op".into() };
+            fn probe<P: HP, T: HV>(v: Option<TrieViewMut<'_, P, T>>, kind: &str, q: &P) -> (String, Option<*const T>) {
+                match v {
+                    None => ("-".into(), None),
+                    Some(v) => {
+                        let res = match kind {
+                            "exact" => v.find_exact(q),
+                            "find" => v.find(q.clone()),
+                            _ => v.find_lpm(q),
+                        };
+                        match res {
+                            Ok(mut w) => {
+                                let s = format!("ok:{}", fnet(w.prefix()));
+                                let p = w.value_mut().map(|x| x as *const T);
+                                (s, p)
+                            }
+                            Err(_) => ("err".into(), None),
+                        }
+                    }
+                }
+            }
+            macro_rules! go {
+                ($m:expr, $t:ty) => {
+                    match nav_mut($m.view_mut(), &steps) {
+                        Err(e) => e,
+                        Ok(v) => {
+                            let (l, r) = v.split();
+                            let (ls, lp) = probe(l, kind, &q);
+                            let (rs, rp) = probe(r, kind, &q);
+                            let alias = std::mem::size_of::<$t>() != 0 && lp.is_some() && lp == rp;
+                            format!("L={};R={}{}", ls, rs, if alias { ";ALIAS" } else { "" })
+                        }
+                    }
+                };
+            }
+            match *r {
+                "A" => go!(&mut st.a, i64),
+                "B" => go!(&mut st.b, i64),
+                "S" => go!(&mut st.s, ()),
+                _ => "bad-op".into(),
+            }
+        }
         ["par_churn", r, n, rest @ ..] => {
             // two threads insert / remove the value at the root of their side of a split view, `n` times each
             // (the entry counter is shared between the sides); every side ends as it started
@@ -1622,6 +1679,9 @@ fn run<P: HP>(input: impl BufRead, out: &mut impl Write) {
             Ok(mut s) => {
                 if s.starts_with("arena=") {
                     s.push_str(&bound);
+                }
+                if UNFUSED.with(|c| c.replace(false)) {
+                    s.push_str(";UNFUSED");
                 }
                 writeln!(out, "{}", s).unwrap();
                 out.flush().unwrap();
